@@ -225,6 +225,8 @@ def _stepper_with_zero_linear_part(ex, D, N, term, p, C):
         return st.KolmogorovFlowVorticity(D, L, N, DT, diffusivity=0.0, convection_scale=1.0, drag=0.0, injection_mode=1, injection_scale=1.0, order=p)
     if term == "rot3d":
         return st.NavierStokesVelocity(D, L, N, DT, diffusivity=0.0, drag=0.0, order=p)
+    if term == "general":
+        return st.generic.GeneralNonlinearStepper(D, L, N, DT, linear_coefficients=(0.0,), nonlinear_coefficients=(1 / 2, -3 / 2, 2 / 3), order=p)
     return None
 
 
